@@ -548,8 +548,9 @@ Proof.
                  Forall not_sent (snd (del_interface_addr st i))).
   { unfold del_interface_addr. destruct (intf_get (i_index i) (d_intfs st)) as [m|]; [|simpl; auto].
     destruct (has_ifaddr _ _); [|simpl; auto].
-    destruct (is_nil _); simpl; [split; [reflexivity|constructor; [exact I|constructor]]|].
-    destruct (negb (family_enabled _ _)); simpl; split; try reflexivity; constructor; try exact I; constructor. }
+    destruct (is_nil _).
+    - destruct (holds_ip _ _); simpl; split; try reflexivity; repeat constructor.
+    - destruct (negb (family_enabled _ _)); destruct (holds_ip _ _); simpl; split; try reflexivity; repeat constructor. }
   destruct Hret as [Hr Hn]. split; [|exact Hn]. constructor.
   - rewrite A3. exact J1.
   - rewrite A2. exact J2.
@@ -674,7 +675,7 @@ Proof.
   subst r. revert Htab. unfold check_ip_changes.
   set (tbl := d_os d).
   set (kept := map _ (d_intfs d)).
-  set (deleted_ips := flat_map _ (d_intfs d)).
+  set (deleted_ips := filter _ (flat_map _ (d_intfs d))).
   set (deleted_intfs := filter _ kept).
   set (d1 := set_intfs kept (d_regs d) d).
   set (d2 := fold_left _ deleted_ips d1).
